@@ -75,7 +75,8 @@ def fresh(variant):
 
 # --------------------------------------------------------------------------- the engine
 _tls = threading.local()
-STEP_TIMEOUT = 60
+STEP_TIMEOUT = 300      # hang guards only (a deadlocked run); never a budget
+HANG_GUARD = 900
 
 
 class HarnessError(Exception):
@@ -601,34 +602,60 @@ def _work(task):
             "modules": [[r.outcome, r.kern.module_name] for r in res.runs]}
 
 
-def run_tasks(ctx, world, tasks, deadline):
-    """Play the tasks in forked workers, in order, until done or the deadline passes.  Returns the
-    results of the tasks that were played (a prefix of the list)."""
+class _Stub:
+    """what World needs of ctx, in a worker"""
+
+    def __init__(self, scratch):
+        from pathlib import Path
+        self.scratch = Path(scratch)
+
+
+def _worker_init(scratch):
+    global _WORLD
+    try:
+        _WORLD = World(_Stub(scratch))
+        _WORLD.setup()
+    except BaseException as err:      # pylint: disable=broad-except
+        _WORLD = "worker setup failed: %s: %s" % (type(err).__name__, err)
+
+
+def _work_guarded(task):
+    if isinstance(_WORLD, str):
+        raise HarnessError(_WORLD)
+    return _work(task)
+
+
+def start_pool(ctx):
+    """Workers are forked while this process is still small (before psyclone is imported here):
+    forking a process that already holds the parsed kernels makes every worker fault on the same
+    copy-on-write pages.  Each worker imports psyclone and builds its own reference data."""
     import multiprocessing as mp
     import sys
     import types
-    global _WORLD
-    _WORLD = world
-    if _work.__module__ not in sys.modules:        # loaded by path: make _work picklable by name
+    if _work.__module__ not in sys.modules:        # loaded by path: make the functions picklable by name
         mod = types.ModuleType(_work.__module__)
         mod.__dict__.update(globals())
         sys.modules[_work.__module__] = mod
+    nproc = max(1, int(os.environ.get("VERIF_JOBS", "4")))
+    return mp.get_context("fork").Pool(nproc, initializer=_worker_init, initargs=(str(ctx.scratch),))
+
+
+def run_tasks(pool, tasks):
+    """Play ALL the tasks in the workers and return their results in order.  The only timeout is a
+    hang guard per result (a deadlocked run); the amount of work never depends on the clock."""
+    import multiprocessing as mp
     out = []
-    nproc = max(2, min(8, core.NCPU // 2))
-    mpc = mp.get_context("fork")
-    with mpc.Pool(nproc) as pool:
-        it = pool.imap(_work, tasks, chunksize=1)
-        while len(out) < len(tasks):
-            left = deadline - time.time()
-            if left <= 0:
-                break
+    try:
+        it = pool.imap(_work_guarded, tasks, chunksize=1)
+        for k in range(len(tasks)):
             try:
-                out.append(it.next(timeout=max(1.0, min(left, 4 * STEP_TIMEOUT))))
+                out.append(it.next(timeout=HANG_GUARD))
             except mp.TimeoutError:
-                if time.time() >= deadline:
-                    break
-                raise HarnessError("a worker did not answer within %ds (task %d)" % (4 * STEP_TIMEOUT, len(out)))
+                raise HarnessError("no answer from the workers for %ds at task %d: %r"
+                                   % (HANG_GUARD, k, tasks[k])) from None
+    finally:
         pool.terminate()
+        pool.join()
     return out
 
 
@@ -855,7 +882,7 @@ def run_names(ctx, world, ci):
     from psyclone.psyGen import CodedKern
     rng = ctx.rng("names")
     cases, meta = [], []
-    for s in name_strings(rng, ctx.pick(1500, 12000)):
+    for s in name_strings(rng, ctx.pick(400, 6000)):
         for tag in ("_0", rng.choice(["_7", "_12", "", "_mod"])):
             for suf in ("_mod", "_code") + (("",) if rng.random() < 0.05 else ()):
                 res = CodedKern._new_name(s, tag, suf)
@@ -868,7 +895,7 @@ def run_names(ctx, world, ci):
     ctx.cov["evaluations"] += len(cases)
     failing = ctx.coq_eval_failing("From PV Require Import C29.NamesModel.\nRequire Import Coq.Strings.String.\n"
                                    "Local Open Scope string_scope.",
-                                   "bool * string * string * string * string", "check_new_name", cases, shard=4000)
+                                   "bool * string * string * string * string", "check_new_name", cases, shard=700)
     # (b)
     pairs = [("testkern_mod", "testkern_code"), ("testkern_MOD", "testkern_CODE"), ("TESTKERN_mod", "testkern_code"),
              ("testkern_mod", "TESTKERN_code"), ("TESTKERN_MoD", "TESTKERN_CoDe"), ("testkern", "testkern_code"),
@@ -1017,11 +1044,22 @@ def run(ctx):
         "model runs scheduled one after the other",
         "identical_share_partial assumes read_safe: no read-back observes a created-but-unwritten file",
         "names_match_partial assumes suffix_case_ok: '_mod' spelled in lower case or absent in every case"]
-    ok, rep = ctx.prove()
-    ctx.log("proof ok=%s discharged=%d/%d" % (ok, ctx.cov["discharged"], ctx.cov["obligations"]))
+    pool = start_pool(ctx)            # workers set themselves up while Coq builds
+    try:
+        ok, rep = ctx.prove()
+        ctx.log("proof ok=%s discharged=%d/%d" % (ok, ctx.cov["discharged"], ctx.cov["obligations"]))
+        world = World(ctx)
+        world.setup()
+    except BaseException:
+        pool.terminate()
+        raise
+    try:
+        return _run(ctx, pool, world, ok, rep, t0)
+    finally:
+        pool.terminate()
 
-    world = World(ctx)
-    world.setup()
+
+def _run(ctx, pool, world, ok, rep, t0):
     ci = names_ci()
     ctx.notes["new_name_case_insensitive"] = ci
 
@@ -1052,9 +1090,12 @@ def run(ctx):
             add(cfg, sc, gran)
         groups[(label, json.dumps(cfg.as_json(), sort_keys=True))] = [lo, len(tasks), complete]
 
+    # The numbers of schedules are fixed per tier (never by the clock).
+    core_pairs = (["tk_acc", "tk_acc"], ["tk_acc", "tk_const"])
+    quick_pairs = core_pairs + (["tk_acc", "qr_acc"], ["cu_acc", "cu_acc"])
     # --- 2 runs, every schedule at the file-system-visible points
     for cfg in two:
-        if not ctx.thorough and (len(cfg.pre) > 1 or cfg.runs[0] == "mom_plain"):
+        if not ctx.thorough and (len(cfg.pre) > 1 or cfg.runs not in quick_pairs):
             continue
         scheds, complete = all_schedules(world, cfg, True, 5000)
         add_all("2 runs, fs-visible points", cfg, scheds, complete, "2-macro")
@@ -1062,36 +1103,37 @@ def run(ctx):
     for cfg in two:
         if len(cfg.pre) > 1 or cfg.runs[0] == "mom_plain":
             continue
-        if not ctx.thorough and not (cfg.runs in (["tk_acc", "tk_acc"], ["tk_acc", "tk_const"]) and
+        if not ctx.thorough and not (cfg.runs in core_pairs and
                                      (not cfg.pre or cfg.pre[0][2] in ("foreign", "kernel:tk_acc"))):
             continue
         scheds, complete = all_schedules(world, cfg, False, 5000)
-        cap = ctx.pick(112, 5000)
+        if ctx.thorough:
+            cap = 200
+        else:           # quick: single scheme and the empty-directory identical pair in full, others sampled
+            cap = 120 if (cfg.scheme == "single" or (not cfg.pre and cfg.runs == core_pairs[0])) else 24
         if len(scheds) > cap:
             rng.shuffle(scheds)
             scheds, complete = scheds[:cap], False
         add_all("2 runs, every atomic point", cfg, scheds, complete, "2-full")
-    # --- 3 runs at the file-system-visible points: exhaustive (thorough, up to 1000 per configuration) / sampled
+    # --- 3 runs at the file-system-visible points: exhaustive up to 700 schedules per configuration
+    #     in the thorough tier, sampled otherwise
     for cfg in three:
         scheds, complete = all_schedules(world, cfg, True, 20000)
-        cap = ctx.pick(8, 1000)
-        if len(scheds) > cap:
+        if not ctx.thorough or len(scheds) > 700:
             rng.shuffle(scheds)
-            scheds, complete = scheds[:ctx.pick(8, 400)], False
+            scheds, complete = scheds[:ctx.pick(6, 200)], False
         add_all("3 runs, fs-visible points", cfg, scheds, complete, "3-macro")
     # --- 3 runs, seeded random schedules at every atomic point; some through the whole psy.gen
-    for k in range(ctx.pick(80, 2500)):
+    for k in range(ctx.pick(60, 1000)):
         cfg = rng.choice(three)
         add(cfg, random_schedule(world, cfg, rng), "3-random")
     lf = [c for c in three + two if all(v.startswith(("tk", "qr")) for v in c.runs)]
-    for k in range(ctx.pick(10, 150)):
+    for k in range(ctx.pick(10, 100)):
         cfg = rng.choice(lf)
         add(cfg, random_schedule(world, cfg, rng), "gen-random", mode="gen")
 
-    results = run_tasks(ctx, world, tasks, t0 + ctx.pick(70, 840))
-    ctx.log("schedules played: %d of %d planned (%.0fs)" % (len(results), len(tasks), time.time() - t0))
-    if not results:
-        raise HarnessError("no schedule could be played")
+    results = run_tasks(pool, tasks)
+    ctx.log("schedules played: %d (%.0fs)" % (len(results), time.time() - t0))
     for r in results:
         ctx.count((r["cfg"], r["sched"], r["mode"]), r["contend"])
         ctx.hist("scheme", r["cfg"]["scheme"])
@@ -1113,10 +1155,10 @@ def run(ctx):
     for (label, _), (lo, hi, complete) in groups.items():
         e = exh.setdefault(label, {"configurations": 0, "exhaustively_enumerated_and_played": 0})
         e["configurations"] += 1
-        if complete and hi <= len(results):
+        if complete:
             e["exhaustively_enumerated_and_played"] += 1
     ctx.notes["schedule_sets"] = exh
-    ctx.notes["planned_vs_played"] = [len(tasks), len(results)]
+    ctx.notes["schedules_played"] = len(results)
 
     # --- model vs implementation, step by step, in Coq
     header = "From PV Require Import C29.Model."
